@@ -32,6 +32,10 @@
 //	     request; u/p of cred are appended): db, rp (absent / empty / plain / with '/', '..', '../x_clean', '../../api/write',
 //	     '%2e%2e' …), precision, consistency, unknown keys, the same key twice. Last two observations: the database and
 //	     retention policy the real handler handed to PointsWriter.WritePoints ("! !" when it was not called).
+//	httph <flags> <method> <url path> <cred> <headers> => <status> <served> <wrote> <ran>
+//	     headers = "-" | k=v&k=v…  extra request headers (keys and values escaped; Header.Add, so a key may repeat); a key that
+//	     begins with '?' is a URL parameter instead (?_method=DELETE). WHICH handler ran is observed: every (method, pattern)
+//	     the harness registers has its own recorder; ran = "-" (none of them) | METHOD,pattern[+METHOD,pattern…].
 //	addroute <preview 0|1> <pattern> => ok|err      Handler.AddRoute / AddPreviewRoute on a fresh handler (method DELETE)
 //
 // Strings are BYTE strings: any token may unescape to bytes that are not valid UTF-8.
@@ -117,6 +121,7 @@ type server struct {
 	h      *httpd.Handler
 	pw     *pointsWriter
 	served int
+	ran    []string // identities "METHOD,pattern" of the harness-registered handlers that ran, in order
 	stats  *expvar.Map
 }
 
@@ -132,11 +137,19 @@ func newServer(requireAuth, pprof bool, fa *fakeAuth) *server {
 	s.h = httpd.NewHandler(requireAuth, pprof, false, false, false, s.stats, kit.Diag().NewHTTPDHandler(), secret)
 	s.h.AuthService = fa
 	s.h.PointsWriter = s.pw
-	rec := func(w http.ResponseWriter, r *http.Request) { s.served++; w.WriteHeader(http.StatusOK) }
+	// one DISTINGUISHABLE handler per (method, pattern): it records its own identity, not what the request says
+	rec := func(m, pat string) func(http.ResponseWriter, *http.Request) {
+		id := m + "," + kit.Esc(httpd.BasePath+pat)
+		return func(w http.ResponseWriter, r *http.Request) {
+			s.served++
+			s.ran = append(s.ran, id)
+			w.WriteHeader(http.StatusOK)
+		}
+	}
 	var routes []httpd.Route
 	for _, m := range methods {
-		routes = append(routes, httpd.Route{Method: m, Pattern: "/tasks", HandlerFunc: rec})
-		routes = append(routes, httpd.Route{Method: m, Pattern: "/tasks/", HandlerFunc: rec})
+		routes = append(routes, httpd.Route{Method: m, Pattern: "/tasks", HandlerFunc: rec(m, "/tasks")})
+		routes = append(routes, httpd.Route{Method: m, Pattern: "/tasks/", HandlerFunc: rec(m, "/tasks/")})
 	}
 	if err := s.h.AddRoutes(routes); err != nil {
 		panic(err)
@@ -268,6 +281,56 @@ func doHTTPQ(s *server, method, urlPath, cred, query string) (obs string) {
 		return o + " " + kit.Esc(s.pw.db) + " " + kit.Esc(s.pw.rp)
 	}
 	return o + " ! !"
+}
+
+// doHTTPH: like doHTTP, with extra request headers (and URL parameters); also reports WHICH registered handler ran.
+func doHTTPH(s *server, method, urlPath, cred, hdrs string) (obs string) {
+	defer func() {
+		if r := recover(); r != nil {
+			obs = "panic"
+		}
+	}()
+	f := strings.Split(cred, ",")
+	for len(f) < 6 {
+		f = append(f, "%")
+	}
+	var parts []string
+	req := httptest.NewRequest("GET", "http://localhost/", strings.NewReader("m v=1 1\n"))
+	req.Method = method
+	req.URL.Path = urlPath
+	req.URL.RawPath = ""
+	if hdrs != "-" {
+		for _, e := range strings.Split(hdrs, "&") {
+			i := strings.Index(e, "=")
+			if i < 0 {
+				return "badheaders"
+			}
+			k, v := un(e[:i]), un(e[i+1:])
+			if strings.HasPrefix(k, "?") {
+				parts = append(parts, url.QueryEscape(k[1:])+"="+url.QueryEscape(v))
+			} else {
+				req.Header.Add(k, v)
+			}
+		}
+	}
+	if u := un(f[4]); u != "" {
+		parts = append(parts, "u="+url.QueryEscape(u))
+	}
+	if p := un(f[5]); p != "" {
+		parts = append(parts, "p="+url.QueryEscape(p))
+	}
+	req.URL.RawQuery = strings.Join(parts, "&")
+	if hv, ok := authHeader(f); !ok {
+		return "badtoken"
+	} else if hv != "" {
+		req.Header.Set("Authorization", hv)
+	}
+	ran0 := len(s.ran)
+	o := serveAndObserve(s, req, method, urlPath)
+	if len(s.ran) == ran0 {
+		return o + " -"
+	}
+	return o + " " + strings.Join(s.ran[ran0:], "+")
 }
 
 // authHeader builds the Authorization header value a credential token describes ("" = none).
@@ -475,6 +538,15 @@ func execCase(ops []string) (out []string) {
 					servers[t[1]] = s
 				}
 				return doHTTPQ(s, un(t[2]), un(t[3]), t[4], t[5])
+			})
+		case t[0] == "httph" && len(t) == 6:
+			guard(line, func() string {
+				s, ok := servers[t[1]]
+				if !ok {
+					s = newServer(t[1] == "1" || t[1] == "3", t[1] == "2" || t[1] == "3", fa)
+					servers[t[1]] = s
+				}
+				return doHTTPH(s, un(t[2]), un(t[3]), t[4], t[5])
 			})
 		case t[0] == "httpraw" && len(t) == 6:
 			guard(line, func() string {
